@@ -150,7 +150,7 @@ EXPORT errno_t _getenv_s_chk(size_t *restrict len, char *restrict dest,
 #endif
 
     if (buf == NULL) {
-        if (likely(dest)) {
+        if (likely(dest && dmax)) {
 #ifdef SAFECLIB_STR_NULL_SLACK
             memset(dest, 0, dmax);
 #else
